@@ -148,6 +148,13 @@ class Effects:
                                     self.why.setdefault((b.id, (inner, fld["name"])), ("reset-by-assign", bi))
         for bi, t in b.calls():
             name = (t.get("cn") or "").rsplit("::", 1)[-1]
+            # interior mutation through a shared reference to the cell
+            if (t.get("cn") or "").endswith(("RefCell::replace", "RefCell::take", "RefCell::swap", "RefCell::replace_with", "Cell::set",
+                                             "Cell::replace", "Cell::take", "Cell::swap")) and t["args"]:
+                chain, root = field_chain(sy.operand(t["args"][0]))
+                if chain and not self._is_fresh_local(b, root):
+                    self._record(eff, b, chain, None, "cell:" + name, bi)
+                continue
             if any((t.get("cn") or "").endswith(x) for x in READ_ONLY_MUT_CALLEES):
                 continue
             if name in NON_CONTENT:
